@@ -28,7 +28,7 @@ ROOTS = ["gmm.lwl", "gmm.ll", "gmm.ll1", "gmm.set.variances", "gmm.set.weights",
 
 
 def run(P, R, tier):
-    n, rets = dimrun.route(P, R, ROOTS, rules=["DIM."], where_prefix=["gmm:log", "gmm:reduce", "gmm:GMMMachine.variances", "gmm:GMMMachine.weights", "gmm:GMMMachine.g_norms", "gmm:GMMMachine.log_weights", "gmm:e_step"], exclude_rules=["DIM.D2-root"])
+    n, rets = dimrun.route(P, R, ROOTS, rules=["DIM."], where_prefix=["gmm:"], exclude_rules=["DIM.D2-root"])
     R.floor("DIM obligations (log-likelihood)", n, 10)
     obs, rets = dimrun.run_roots(P, ROOTS)
     const_ok = [o for o in obs if o[1] == "DIM.CONST"]
@@ -56,6 +56,9 @@ def run(P, R, tier):
     gdu = get_defuse(g, P)
     calls = {src(P.peel_call(c, g)[1]) for c in walk_no_nested(g.node) if isinstance(c, ast.Call)}
     R.check("log_weighted_likelihood" in calls and "reduce_loglikelihood" in calls, "SIBLING.e_step", g.key, "e_step uses log_weighted_likelihood and reduce_loglikelihood", "statistics and likelihood share the kernels", "the E-step does not compute its likelihoods with the same kernels as log_likelihood")
+    cache.k1_who_may_write(P, R)
     cache.k2_variances_setter(P, R)
     cache.k2b_lazy_getter(P, R)
     cache.k3_weights_setter(P, R)
+    cache.k4_thresholds_setter(P, R)
+    cache.k5_no_inplace_through_getter(P, R)
